@@ -1,5 +1,5 @@
 /-
-C15 — the backends' `process_data` loop (gzip.c / xz.c / bzip2.c, with the patch) turns a library stream with the
+C15 — the backends' `process_data` loop (gzip.c / xz.c / bzip2.c) turns a library stream with the
 documented calling convention into a codec that meets the contract of the wrappers.
 -/
 import Sqfs.Proofs.Xfrm
